@@ -1,6 +1,13 @@
 //! Low-level transfer primitives + helpers shared by the sync orchestration.
 //! Split out of `dir_sync` to keep each module within the size budget.
 
+#[cfg(paiml_copia_verif)]
+#[allow(unused_imports)]
+use copia_simworld::shim::{fs2, std, tokio};
+#[cfg(paiml_copia_verif)]
+#[allow(unused_imports)]
+use copia_simworld::{eprintln, println};
+
 use std::path::{Path, PathBuf};
 use tracing::instrument;
 
